@@ -25,6 +25,7 @@ import Anko.Props.Tie.CallFlow
 import Anko.Props.Tie.BindFlow
 import Anko.Props.Tie.ConvFlow
 import Anko.Props.Tie.CoreFlow
+import Anko.Props.Tie.Inventory
 
 set_option linter.unusedSectionVars false
 set_option linter.unusedSimpArgs false
@@ -277,5 +278,16 @@ theorem source_tie_BindFlow : Gen.BindFlow.leaves = Tables.bindFlow := Tie.bindF
 theorem source_tie_ConvFlow : Gen.ConvFlow.leaves = Tables.convFlow := Tie.convFlow
 /-- the builtins (core/*.go) -/
 theorem source_tie_CoreFlow : Gen.CoreFlow.leaves = Tables.coreFlow := Tie.coreFlow
+
+
+/-! ### Declaration inventory
+
+Nothing was added to the packages this property is anchored in: their top-level declarations (functions, methods, variables, constants, types with
+the fields of struct types), regenerated from /repo on this run, are the audited ones (Props/Tie/Inventory). A helper, a package-level table or a
+file added there - code no flow table can pin - breaks the tie by name and makes this property's check search for a failing input. -/
+/-- vm/ -/
+theorem declarations_of_Vm_are_the_audited_ones : Tie.ofPkg "vm" Gen.Inventory.decls = Tie.ofPkg "vm" Tables.inventory := Tie.inventoryVm
+/-- core/ -/
+theorem declarations_of_Core_are_the_audited_ones : Tie.ofPkg "core" Gen.Inventory.decls = Tie.ofPkg "core" Tables.inventory := Tie.inventoryCore
 
 end Anko.C02
